@@ -5,7 +5,7 @@
 (*   step{v,dt,lens,fz,out} | done{dt,lens,fz,out}                                            *)
 (* The inputs of the event drive the model's own action; `out` is what the real code wrote   *)
 (* (parsed from the bytes on its io.Writer) and is judged against the model's outp' and      *)
-(* against the C20 conditions themselves.  A call that does not conform does not block the   *)
+(* against the C20 conditions themselves (Broken).  A call that does not conform does not block the   *)
 (* validation: it is printed as a BAD line (with the line number, the reasons and the model's *)
 (* prediction), counted in TLCGet(2), and the validation carries on with the model's state,  *)
 (* so that one known deviation does not hide another one.  The trace is accepted when every  *)
@@ -49,12 +49,12 @@ Diff(p, o, fz) ==
 
 (* the C20 conditions on what the real code did *)
 Broken(p, o, c, last) ==
-    IF o.res = "panic" THEN {"render-panic"}
+    IF o.res \in {"panic", "crash", "hang"} THEN {"render-" \o o.res}    \* crash / hang: seen in a child process
     ELSE IF o.res # "rendered" THEN {}
     ELSE (IF c >= 5 /\ o.w > c THEN {"fits"} ELSE {})
          \cup (IF o.pct < 0 \/ o.pct > 100 THEN {"pct-range"} ELSE {})
          \cup (IF o.pct < last THEN {"pct-monotone"} ELSE {})
-         \cup (IF o.bar /\ p.res = "rendered" /\ p.bar /\ p.nf = o.nf /\ p.match = o.match /\ o.total # p.total
+         \cup (IF o.bar /\ p.res = "rendered" /\ p.bar /\ p.nf = o.nf /\ p.match = o.match /\ p.pl = o.pl /\ o.total # p.total
                THEN {"bar-cells"} ELSE {})
          \cup (IF o.match = "none" THEN {"name"} ELSE {})
 
@@ -64,7 +64,8 @@ Judge ==
         broken == Broken(p, o, cols, obsPct)
         diff == IF p.cls \in {"ok", ""} THEN Diff(p, o, Ev.fz) ELSE {}
     IN  /\ obsPct' = (IF lastPct' = -1 THEN -1 ELSE IF o.res = "rendered" THEN o.pct ELSE obsPct)
-        /\ IF broken = {} /\ diff = {} THEN TRUE
+        /\ IF broken = {} /\ diff = {}
+           THEN IF p.res = "rendered" THEN TLCSet(4, TLCGet(4) \cup {<<p.rung, p.nf, p.match, p.bar, p.pfx>>}) ELSE TRUE
            ELSE /\ PrintT("BAD " \o ToJson([line |-> l, e |-> Ev.e, broken |-> broken, diff |-> diff,
                                            cls |-> p.cls, cols |-> cols,
                                            pred |-> [res |-> p.res, rung |-> p.rung, nf |-> p.nf, k |-> p.k,
@@ -89,9 +90,11 @@ TNext == TNew \/ TNum \/ TName \/ TSize \/ TPreSize \/ TCols \/ TPause \/ TStep 
 
 TSpec == TInit /\ [][TNext]_tvars
 
-(* high-water mark of consumed lines in register 1, number of BAD lines in register 2 *)
+(* high-water mark of consumed lines in register 1, number of BAD lines in register 2, the     *)
+(* (rung, fields, name, bar, prefix) combinations of conforming drawn updates in register 4    *)
 HW == IF l > TLCGet(1) THEN TLCSet(1, l) ELSE TRUE
-ASSUME TLCSet(1, 0) /\ TLCSet(2, 0)
-Accepted == IF TLCGet(1) = Len(TraceLog) + 1 /\ TLCGet(2) = 0 THEN TRUE
-            ELSE PrintT("HW " \o ToString(TLCGet(1))) /\ PrintT("NBAD " \o ToString(TLCGet(2))) /\ FALSE
+ASSUME TLCSet(1, 0) /\ TLCSet(2, 0) /\ TLCSet(4, {})
+Accepted == /\ PrintT("SIGS " \o ToJson(TLCGet(4)))
+            /\ IF TLCGet(1) = Len(TraceLog) + 1 /\ TLCGet(2) = 0 THEN TRUE
+               ELSE PrintT("HW " \o ToString(TLCGet(1))) /\ PrintT("NBAD " \o ToString(TLCGet(2))) /\ FALSE
 =============================================================================
